@@ -216,11 +216,35 @@ class Fn:
                     if k is None:
                         raise Unhandled("%s of a non-lvalue" % cn)
                     self.blob_id(k)
+        # `t = blobResize(x, …)` into a temporary t ≠ x (x keeps its block when the call fails)
+        self.rtemp = {}
         for n in walk(self.body):
             tgt, rhs = self.assignment(n)
             if tgt is not None and rhs is not None:
                 r = strip(rhs)
-                if r["kind"] == "CallExpr" and callee_name(r) in ALLOC | RESIZE:
+                if r["kind"] == "CallExpr" and callee_name(r) in RESIZE:
+                    x = lv_key(r["inner"][1])
+                    if x is not None and x != tgt:
+                        if self.rtemp.get(tgt, x) != x:
+                            raise Unhandled("temporary %s receives blobResize of two different blobs" % tgt)
+                        self.rtemp[tgt] = x
+        for t, x in self.rtemp.items():
+            # every other mention of t must be the hand-over `x = t`
+            allowed = 0
+            for n in walk(self.body):
+                tgt, rhs = self.assignment(n)
+                if tgt == x and rhs is not None and lv_key(rhs) == t:
+                    allowed += 1
+                if tgt == t and rhs is not None and strip(rhs)["kind"] == "CallExpr" and callee_name(strip(rhs)) in RESIZE:
+                    allowed += 1
+            total = sum(1 for n in walk(self.body) if n["kind"] == "DeclRefExpr" and n["referencedDecl"]["name"] == t)
+            if total != allowed:
+                raise Unhandled("temporary %s of blobResize is used for something else" % t)
+        for n in walk(self.body):
+            tgt, rhs = self.assignment(n)
+            if tgt is not None and rhs is not None:
+                r = strip(rhs)
+                if r["kind"] == "CallExpr" and callee_name(r) in ALLOC | RESIZE and tgt not in self.rtemp:
                     self.blob_id(tgt)
         if len(self.codes) > 1:
             # only the variable that is returned/tested most is tracked; others are opaque
@@ -408,10 +432,14 @@ class Fn:
             v = self.blob_id(tk)
             out.append([("allocOk", v), ("allocFail", v)])
             return
+        if tk is not None and lv_key(rhs) in self.rtemp and self.rtemp[lv_key(rhs)] == tk:
+            return                       # `x = t` after a successful resize into the temporary: no event
         if r["kind"] == "CallExpr" and callee_name(r) in RESIZE:
             args = r["inner"][1:]
             for a in args[1:]:
                 self.ev_expr(a, out)
+            if tk in self.rtemp:
+                raise Unhandled("blobResize into a temporary outside an `if ((t = blobResize(..)) == 0)` test")
             if tk is None or lv_key(args[0]) != tk:
                 raise Unhandled("blobResize(x) not assigned back to x")
             v = self.blob_id(tk)
@@ -502,6 +530,8 @@ class Fn:
             return ("code", True)
         if x["kind"] == "BinaryOperator" and x["opcode"] == "=":
             r = strip(x["inner"][1])
+            if r["kind"] == "CallExpr" and callee_name(r) in RESIZE and lv_key(x["inner"][0]) in self.rtemp:
+                return ("rtemp", x, False)
             if r["kind"] == "CallExpr" and callee_name(r) in ALLOC | RESIZE:
                 return ("alloc", x, False)
         return None
@@ -524,6 +554,19 @@ class Fn:
                 return ("ifnull", t[1], T, E) if t[2] else ("ifnull", t[1], E, T)
             if t[0] == "code":
                 return ("ifcode", T, E) if t[1] else ("ifcode", E, T)
+            if t[0] == "rtemp":
+                # exact: success -> the arm for "non-null", failure (x keeps its block) -> the arm for "null"
+                r = strip(t[1]["inner"][1])
+                atoms = []
+                for a in r["inner"][2:]:
+                    self.ev_expr(a, atoms)
+                v = self.blob_id(self.rtemp[lv_key(t[1]["inner"][0])])
+                cid = self.nconds
+                self.nconds += 1
+                on_null, on_ok = (T, E) if t[2] else (E, T)
+                return self.seq([("atom", a) for a in atoms] + [("ite", cid,
+                                self.seq([("atom", [("resizeOk", v)]), on_ok]),
+                                self.seq([("atom", [("resizeKeep", v)]), on_null]))])
             if t[0] == "alloc":
                 atoms = []
                 self.ev_assign(t[1]["inner"][0], t[1]["inner"][1], atoms)
